@@ -168,6 +168,10 @@ def run(c, facts, tier):
     c.ob("C19.frames", ff.key, "recursive exists over every operator variant", r2["ok"], "; ".join(r2["problems"]) or "every Operator variant yields the disjunction of the recursive results on all its sub-expressions; %s nodes yield false" % r2["hidden"])
     lp = frames_leaf(facts, r2, fspec)
     c.ob("C19.frames", ff.key, "per-action rule equals the statement", not lp, "; ".join(lp) or "file-writing ×4 and PrintNull → true; PrintFormatted → last element exists and is not Special(Newline); others → false")
+    from .. import valuetraits as _vt
+
+    eqp = _vt.eq_problems(facts)
+    c.ob("C19.frames", "ast", "`==` on tree values is the derived, structural one", not eqp, "the helpers were evaluated with structural equality of tree values; hand-written equality: %s" % (eqp or "none"), nontrivial=False)
     # the method names the rules above read (`last`, `is_some_and`, ...) mean what they say only if they resolve to the
     # standard library: on the type-checked program, every call made from the two helpers goes either to std/core/alloc or
     # to a crate function the induction has accounted for
